@@ -65,7 +65,7 @@ theorem SW_process (c : Cfg) (s : State) (Z : List (Info × Nat)) (r : Res) (d :
     (processData c s r).2 ≠ .assertion ∧ ∃ Z', SWk c (processData c s r).1 Z' none 0 := by
   have h0 : SWk c { s with numTasks := s.numTasks.modify r.w (· - 1) } Z none 1 :=
     SWk_of_eq c s _ Z none 1 h rfl rfl rfl rfl rfl
-  obtain ⟨Z', h1, hms⟩ := SWk_tryPut c _ Z none 1 hit h0 hroom
+  obtain ⟨Z', h1, hms, _, _⟩ := SWk_tryPut c _ Z none 1 hit h0 hroom
   have hc := tryPut_sameCore c { s with numTasks := s.numTasks.modify r.w (· - 1) }
   have hp1 : Pend c (tryPut c { s with numTasks := s.numTasks.modify r.w (· - 1) }) d := by
     refine ⟨by rw [hc.numYielded]; exact hp.yb, by rw [hc.numYielded]; exact hp.dy, by rw [hc.rcvdIdx]; exact hp.rc, ?_⟩
